@@ -4,6 +4,7 @@
   the after-pass invariants of Props/C10.lean.
 -/
 import TmVerif.Props.C10
+import TmVerif.Props.C11
 import TmVerif.Master.InitLemmas
 
 namespace TmVerif.Master
@@ -106,10 +107,11 @@ def IdentityStable (c c' : Cell) : Prop :=
     the publication — provided the cycle did not change the identity of an instance whose server and
     expiry it left unchanged (`IdentityStable`: `reschedule` republishes a record only when
     (server, expiry) changed; in real time a re-placement always changes the expiry).
-    PARTIAL with respect to the property: the hypothesis `AgreeWhat c st` is NOT re-established by
-    the loader's event handlers — `restore_placement`'s put branch gives a new expiry that nothing
-    republishes (finding F10, witness `C09_F10_witness`) and `init_schedule` reconciles by name only
-    (finding F13). -/
+    PARTIAL with respect to the property: `IdentityStable` is a fact about the scheduler that is not
+    proved here, and that the loader's event handlers re-establish `AgreeWhat c st` between cycles
+    (`restore_placement` republishes a re-evaluated lease since fix d79bbbc, `remove_app` deletes the
+    record) is decided by the correspondence run and the monitor, not by a theorem; after start-up
+    it is `C09_init`. -/
 theorem C09_cycle_what_partial (c c' : Cell) (st : Store) (order : List Nat) (qs : List (List (Nat × Bool)))
     (ch : List Nat) (ws : List Write) (now : Int)
     (hwhere : AgreeWhere c st) (hwhat : AgreeWhat c st) (hid : IdentityStable c c')
@@ -174,38 +176,34 @@ theorem C09_cycle_partial (m m' : MState) (order : List Nat) (qs : List (List (N
   exact ⟨C09_cycle_where _ _ _ _ _ _ _ _ hpre.1 hw,
          C09_cycle_what_partial _ _ _ _ _ _ _ _ hpre.1 hpre.2 hid hw⟩
 
-/-- What `init_schedule` needs of the cell after its start-up cycle; all three are scheduler
-    invariants (engine `sched`: `C01_views`; every placed instance is on a server of the tree after
-    `_fix_invalid_placements`). -/
-structure CellViews (c : Cell) : Prop where
-  leavesNodup : c.tree.leaves.Nodup
-  leavesLoaded : ∀ sid ∈ c.tree.leaves, (c.srv? sid).isSome
-  views : ∀ sid s, c.srv? sid = some s → ∀ aid, aid ∈ s.apps ↔ placedOn c aid sid
-  placedInTree : ∀ aid sid, placedOn c aid sid → sid ∈ c.tree.leaves
+/-- ZooKeeper paths are unique: at most one record per (server, instance). -/
+def KeysUnique (st : Store) : Prop :=
+  ∀ r₁ ∈ st.recs, ∀ r₂ ∈ st.recs, r₁.srv = r₂.srv → r₁.app = r₂.app → r₁ = r₂
 
-/-- **C09 at start-up, existence (partial).**  After `Master.init_schedule` has reconciled
-    `/placement/<srv>` for every member of the cell — whatever the store held before: the records of
-    a crashed predecessor, stale instances, missing records — a record exists under `srv` for `app`
-    iff the model places `app` on `srv`.
-    PARTIAL: `hloaded` excludes records under a server that is not part of the loaded cell; the
-    code never visits those (start-up face of finding F6, corpus case C10-F6-…, proposed fix F6b).
-    Content (`AgreeWhat`) does NOT hold after `init_schedule`: it reconciles by name only
-    (findings F10 start-up path and F13, witness `C09_F13_witness`). -/
-theorem C09_init_where_partial (c' : Cell) (st : Store) (now : Int) (hc : CellViews c')
+theorem rec?_of_mem {st : Store} (hu : KeysUnique st) {r : PRec} (hr : r ∈ st.recs) :
+    st.rec? r.srv r.app = some r := by
+  unfold Store.rec?
+  cases hf : st.recs.find? (fun x => x.srv = r.srv ∧ x.app = r.app) with
+  | none =>
+    have := List.find?_eq_none.mp hf r hr
+    simp at this
+  | some r0 =>
+    have hm := List.mem_of_find?_eq_some hf
+    have hp := List.find?_some hf
+    simp only [decide_eq_true_eq] at hp
+    rw [hu r0 hm r hr hp.1 hp.2]
+
+/-- **C09 at start-up, existence.**  After `Master.init_schedule` has reconciled `/placement/<srv>`
+    for every member of the cell — whatever the store held before: the records of a crashed
+    predecessor, stale instances, missing records — a record exists under `srv` for `app` iff the
+    model places `app` on `srv`.  `hloaded`: every record is under a member of the cell, which
+    `restore_placements` establishes (`C11_startup_loaded`; see `C09_startup`). -/
+theorem C09_init_where (c' : Cell) (st : Store) (now : Int) (hc : CellViews c')
     (hloaded : ∀ r ∈ st.recs, r.srv ∈ c'.tree.leaves) :
     AgreeWhere c' (st.applyAll now (initWrites c' st)) := by
   intro srv app
   change HasKey _ srv app ↔ _
-  unfold initWrites
-  rw [applyAll_append]
-  have hblob : ∀ st2 : Store, HasKey (st2.applyAll now [Write.saveBlob]) srv app ↔ HasKey st2 srv app := by
-    intro st2; rw [applyAll_cons, applyAll_nil, hasKey_apply]; rfl
-  rw [hblob]
-  have happs : ∀ sid s, c'.srv? sid = some s → ∀ a ∈ s.apps, (c'.app? a).isSome := by
-    intro sid s hs a ha
-    obtain ⟨x, hx, _⟩ := (hc.views sid s hs a).mp ha
-    simp [hx]
-  rw [initLoop_keys now c' st happs c'.tree.leaves st hc.leavesNodup hc.leavesLoaded (fun _ _ _ => Iff.rfl)]
+  rw [keys_after_init now c' st hc.leavesLoaded hc.apps srv app]
   by_cases hin : srv ∈ c'.tree.leaves
   · simp only [hin, ↓reduceIte]
     constructor
@@ -218,7 +216,92 @@ theorem C09_init_where_partial (c' : Cell) (st : Store) (now : Int) (hc : CellVi
     · rintro ⟨r, hr, rfl, rfl⟩; exact absurd (hloaded r hr) hin
     · intro hp; exact absurd (hc.placedInTree app srv hp) hin
 
-/-! ### non-vacuity and finding witnesses -/
+/-- **C09 at start-up, content** (since fix 9069eb3 `init_schedule` republishes a record whose
+    identity / identity_count / expires differ from the model's): after `init_schedule` every record
+    carries the identity and the expiry the model holds. -/
+theorem C09_init_what (c' : Cell) (st : Store) (now : Int) (hc : CellViews c')
+    (hloaded : ∀ r ∈ st.recs, r.srv ∈ c'.tree.leaves) (hu : KeysUnique st) :
+    AgreeWhat c' (st.applyAll now (initWrites c' st)) := by
+  intro r hr a ha
+  have hwhere := C09_init_where c' st now hc hloaded
+  rcases content_applyAll now _ st r hr with ⟨i, n, e, hm, h1, h2⟩ | ⟨r0, hr0, k1, k2, k3, k4, hno⟩
+  · -- written by the second loop: the model's content
+    rw [initWrites_eq] at hm
+    rcases List.mem_append.mp hm with hm | hm
+    · rcases passA_shape c' st _ hm with ⟨_, _, e⟩ | ⟨_, e⟩ <;> cases e
+    · rcases List.mem_append.mp hm with hm | hm
+      · obtain ⟨sid, sv, aid, x, _, _, _, hx, heq⟩ := mem_passB hm
+        injection heq with q1 q2 q3 q4 q5
+        rw [← q2, ha] at hx
+        have : x = a := (Option.some.inj hx).symm
+        subst this
+        simp only [placementData] at q3 q5
+        exact ⟨h1.trans q3, h2.trans q5⟩
+      · simp at hm
+  · -- untouched: `republish` found nothing to change
+    obtain ⟨a', ha', hsrv⟩ := (hwhere r.srv r.app).mp ⟨r, hr, rfl, rfl⟩
+    rw [ha] at ha'; cases ha'
+    have hleaf : r.srv ∈ c'.tree.leaves := by rw [← k1]; exact hloaded r0 hr0
+    obtain ⟨sv, hsv⟩ := Option.isSome_iff_exists.mp (hc.leavesLoaded r.srv hleaf)
+    have happ : r.app ∈ sv.apps := (hc.views r.srv sv hsv r.app).mpr ⟨a, ha, hsrv⟩
+    have hrec : st.rec? r.srv r.app = some r0 := by rw [← k1, ← k2]; exact rec?_of_mem hu hr0
+    have hkey : HasKey st r.srv r.app := ⟨r0, hr0, k1, k2⟩
+    -- otherwise the second loop holds a republishing put
+    apply Classical.byContradiction
+    intro hne
+    apply hno (placementData c' a).1 (placementData c' a).2.1 (placementData c' a).2.2
+    rw [initWrites_eq]
+    refine List.mem_append_right _ (List.mem_append_left _ ?_)
+    simp only [passB, List.mem_flatMap]
+    refine ⟨r.srv, hleaf, ?_⟩
+    unfold initPutsOf
+    rw [hsv]
+    simp only [List.mem_append, List.mem_filterMap, List.mem_filter]
+    right
+    refine ⟨r.app, ⟨mem_sortNat.mpr happ, ?_⟩, ?_⟩
+    · simp only [List.contains_eq_mem, decide_eq_true_eq]
+      exact mem_appsOn.mpr hkey
+    · unfold republish
+      rw [ha, hrec]
+      simp only
+      rw [if_neg]
+      intro hc3
+      apply hne
+      simp only [placementData] at hc3
+      exact ⟨by rw [← k3]; exact hc3.1, by rw [← k4]; exact hc3.2.2⟩
+
+/-- **C09 at start-up.**  Both halves for the state-level operation. -/
+theorem C09_init (m m' : MState) (qs : List (List (Nat × Bool))) (ch : List Nat) (ws : List Write)
+    (h : initSchedule m qs ch = .ok (m', ws)) (hc : CellViews m'.cell)
+    (hloaded : ∀ r ∈ m.store.recs, r.srv ∈ m'.cell.tree.leaves) (hu : KeysUnique m.store) :
+    Agree m'.cell m'.store := by
+  unfold initSchedule at h
+  obtain ⟨c', _, h⟩ := bind_ok'.mp h
+  simp only [pure, Except.pure] at h
+  injection h with h
+  injection h with h1 h2
+  subst h1 h2
+  exact ⟨C09_init_where _ _ _ hc hloaded, C09_init_what _ _ _ hc hloaded hu⟩
+
+/-- **C09 at start-up, from any stored state.**  `load_model`'s last step `restore_placements`
+    followed by `init_schedule`: whatever the store holds when the master starts (records of a
+    crashed predecessor, records under servers whose record is gone, stale or double records), the
+    published placement equals the model after start-up, in existence and content.
+    `hfresh`: the loaded model places nothing before `restore_placements`; `hsame`: the loaded
+    servers are the members of the cell after the start-up cycle; `hparent`, `hu`: tree structure of
+    the store. -/
+theorem C09_startup (c c₁ : Cell) (st : Store) (order : List Nat) (ws₁ : List Write) (m' : MState)
+    (qs : List (List (Nat × Bool))) (ch : List Nat) (ws : List Write)
+    (hfresh : ∀ x, srvOf c x = none) (hparent : ∀ r ∈ st.recs, r.srv ∈ st.servers)
+    (h₁ : restorePlacements c st order = .ok (c₁, ws₁))
+    (h₂ : initSchedule ⟨c₁, st.applyAll c.now ws₁⟩ qs ch = .ok (m', ws))
+    (hc : CellViews m'.cell) (hsame : ∀ sid ∈ c.srvs.map (·.id), sid ∈ m'.cell.tree.leaves)
+    (hu : KeysUnique (st.applyAll c.now ws₁)) :
+    Agree m'.cell m'.store :=
+  C09_init _ m' qs ch ws h₂ hc
+    (fun r hr => hsame _ (C11_startup_loaded c c₁ st order ws₁ c.now hfresh hparent h₁ r hr)) hu
+
+/-! ### non-vacuity -/
 
 def identityStableB (c c' : Cell) : Bool :=
   c.apps.all (fun a => match c'.app? a.id with
@@ -247,127 +330,36 @@ example : Agree Ex.downCell (Ex.storeOn 1) ∧
          identityStableB_sound (by decide +kernel), by decide +kernel⟩
 
 namespace Ex
-/-- F6: both server records are removed (`Loader.remove_server`, recorded as `removeServer`). -/
-def goneCell : Cell :=
-  { getOk (step (getOk (step (cellOn 1) (.removeServer 1))) (.removeServer 2)) with now := 5 }
-/-- F10: the presence node of server 1 was re-created at t=50 s (the record is from t=0). -/
+/-- the presence node of server 1 was re-created at t=50 s (the record is from t=0) -/
 def bouncedStore : Store := { storeOn 1 with presence := [(1, 50000), (2, 0)] }
 def at60 : Cell := { cellOn 1 with now := 60 }
-end Ex
-
-/-- **Witness of finding F6.**  The store agrees with the model; `Loader.remove_server` (a recorded
-    loader step: it touches the cell only) unplaces the instance; the following cycle completes,
-    publishes nothing for it (before = None) and the record of the now-pending instance is still
-    there: the hypothesis `AgreeWhere` of `C09_cycle_where` is what the loader breaks, and no later
-    cycle repairs it. -/
-theorem C09_F6_witness :
-    AgreeWhere (Ex.cellOn 1) (Ex.storeOn 1) ∧
-    ∃ c' ws, rescheduleW Ex.goneCell [10] Ex.q10 [] = .ok (c', ws) ∧
-      ¬ AgreeWhere c' ((Ex.storeOn 1).applyAll 5 ws) := by
-  refine ⟨agreeWhere_of_B (by decide +kernel) (by decide +kernel), ?_⟩
-  refine ⟨(getOk (rescheduleW Ex.goneCell [10] Ex.q10 [])).1, (getOk (rescheduleW Ex.goneCell [10] Ex.q10 [])).2,
-          eq_ok_pair (by decide +kernel), ?_⟩
-  intro h
-  have := agreeWhere_recsPlacedB h
-  revert this
-  decide +kernel
-
-/-- **Witness of finding F10.**  The store agrees with the model in existence and content; server 1
-    bounced (presence younger than the record), `Loader.restore_placement` (modelled) re-places the
-    instance through its put branch with a NEW expiry (160 instead of 100) and writes nothing; the
-    following cycle sees no change and the record keeps `expires = 100`: content disagreement that
-    no publication path repairs. -/
-theorem C09_F10_witness :
-    Agree (Ex.cellOn 1) (Ex.storeOn 1) ∧
-    ∃ c₁ ws₁ restored c₂ ws₂, restorePlacement Ex.at60 Ex.bouncedStore 1 false = .ok (c₁, ws₁, restored) ∧
-      ws₁ = [] ∧ restored = [10] ∧
-      rescheduleW { c₁ with now := 62 } [10] Ex.q10 [] = .ok (c₂, ws₂) ∧
-      AgreeWhere c₂ (Ex.bouncedStore.applyAll 62 ws₂) ∧ ¬ AgreeWhat c₂ (Ex.bouncedStore.applyAll 62 ws₂) := by
-  refine ⟨⟨agreeWhere_of_B (by decide +kernel) (by decide +kernel), agreeWhatB_iff.mp (by decide +kernel)⟩, ?_⟩
-  refine ⟨(getOk (restorePlacement Ex.at60 Ex.bouncedStore 1 false)).1,
-          (getOk (restorePlacement Ex.at60 Ex.bouncedStore 1 false)).2.1,
-          (getOk (restorePlacement Ex.at60 Ex.bouncedStore 1 false)).2.2,
-          (getOk (rescheduleW { (getOk (restorePlacement Ex.at60 Ex.bouncedStore 1 false)).1 with now := 62 } [10] Ex.q10 [])).1,
-          (getOk (rescheduleW { (getOk (restorePlacement Ex.at60 Ex.bouncedStore 1 false)).1 with now := 62 } [10] Ex.q10 [])).2,
-          eq_ok_triple (by decide +kernel), by decide +kernel, by decide +kernel,
-          eq_ok_pair (by decide +kernel), agreeWhere_of_B (by decide +kernel) (by decide +kernel), ?_⟩
-  rw [← agreeWhatB_iff]
-  decide +kernel
-
-namespace Ex
-/-- the cell after the start-up cycle of `down2` (instance moved from the down server 2 to server 1) -/
-def started : Cell := getOk (schedule down2 q10 [])
-/-- F13: the cell after `restore_placement` re-placed the instance through the put branch at t=60 -/
+/-- the cell after `restore_placement` re-placed the instance through the put branch at t=60 -/
 def c60 : Cell := (getOk (restorePlacement at60 bouncedStore 1 true)).1
+/-- a store whose record carries a stale expiry (100) while the model holds 160 -/
 def startSt : MState := ⟨{ c60 with now := 62 }, bouncedStore⟩
 end Ex
 
-/-- Non-vacuity of `C09_init_where_partial`: the concrete start-up state (`Ex.down2`: instance
-    restored on the down server 2) satisfies the hypotheses after its start-up cycle, and the
-    reconciliation is non-trivial (one put, one delete). -/
-example : isOkB (schedule Ex.down2 Ex.q10 []) = true ∧ CellViews Ex.started ∧
-    (∀ r ∈ (Ex.storeOn 2).recs, r.srv ∈ Ex.started.tree.leaves) ∧
-    initWrites Ex.started (Ex.storeOn 2) =
-      [.mkNode 1, .putRec 1 10 none none (some 105), .mkNode 2, .delRec 2 10, .saveBlob] := by
-  refine ⟨by decide +kernel, ?_, by decide +kernel, by decide +kernel⟩
-  have hids : Ex.started.apps.map (·.id) = [10] := by decide +kernel
-  have h10 : (Ex.started.app? 10).map (·.server) = some (some 1) := by decide +kernel
-  have happ : ∀ x, x ≠ 10 → Ex.started.app? x = none := by
-    intro x hx
-    cases hf : Ex.started.app? x with
-    | none => rfl
-    | some a =>
-      have := app?_some_mem_ids hf
-      rw [hids] at this
-      simp at this; exact absurd this hx
-  have hplaced : ∀ aid sid, placedOn Ex.started aid sid ↔ aid = 10 ∧ sid = 1 := by
-    intro aid sid
-    unfold placedOn
-    by_cases hx : aid = 10
-    · subst hx
-      cases h : Ex.started.app? 10 with
-      | none => rw [h] at h10; cases h10
-      | some a =>
-        rw [h] at h10
-        simp only [Option.map_some, Option.some.injEq] at h10
-        simp [h10, eq_comm]
-    · simp [happ aid hx, hx]
-  refine ⟨by decide +kernel, by decide +kernel, ?_, ?_⟩
-  · intro sid s hs aid
-    have hm : sid ∈ Ex.started.srvs.map (·.id) := srv?_some_mem_ids hs
-    have hsids : Ex.started.srvs.map (·.id) = [1, 2] := by decide +kernel
-    rw [hsids] at hm
-    rw [hplaced]
-    simp only [List.mem_cons, List.not_mem_nil, or_false] at hm
-    rcases hm with rfl | rfl
-    · have hs1 : (Ex.started.srv? 1).map (·.apps) = some [10] := by decide +kernel
-      rw [hs] at hs1
-      simp only [Option.map_some, Option.some.injEq] at hs1
-      simp [hs1]
-    · have hs2 : (Ex.started.srv? 2).map (·.apps) = some [] := by decide +kernel
-      rw [hs] at hs2
-      simp only [Option.map_some, Option.some.injEq] at hs2
-      simp [hs2]
-  · intro aid sid hp
-    have hl : Ex.started.tree.leaves = [1, 2] := by decide +kernel
-    rw [hl, ((hplaced aid sid).mp hp).2]
-    simp
+/-- Non-vacuity of `C09_init` on a CONTENT repair (the former findings F10 / F13): the store's record
+    says `expires = 100`, the restored model holds 160; `init_schedule` finds the name sets equal and
+    republishes the record with the model's expiry. -/
+example : isOkB (initSchedule Ex.startSt Ex.q10 []) = true ∧
+    (getOk (initSchedule Ex.startSt Ex.q10 [])).2 =
+      [.mkNode 1, .mkNode 2, .putRec 1 10 none none (some 160), .saveBlob] ∧
+    agreeWhatB (getOk (initSchedule Ex.startSt Ex.q10 [])).1.cell (getOk (initSchedule Ex.startSt Ex.q10 [])).1.store = true ∧
+    KeysUnique Ex.startSt.store := by
+  refine ⟨by decide +kernel, by decide +kernel, by decide +kernel, ?_⟩
+  intro r₁ h₁ r₂ h₂ _ _
+  have : Ex.startSt.store.recs = [⟨1, 10, none, none, some 100, 0⟩] := by decide +kernel
+  rw [this] at h₁ h₂
+  simp only [List.mem_singleton] at h₁ h₂
+  rw [h₁, h₂]
 
-/-- **Witness of finding F13 / F10 (start-up path).**  At start-up `restore_placement` re-placed the
-    instance through its put branch (new expiry 160, the record says 100) without writing anything;
-    `init_schedule` then finds the name sets of server 1 equal and writes nothing for the instance:
-    existence agrees, content does not. -/
-theorem C09_F13_witness :
-    isOkB (restorePlacement Ex.at60 Ex.bouncedStore 1 true) = true ∧
-    (getOk (restorePlacement Ex.at60 Ex.bouncedStore 1 true)).2.1 = [] ∧
-    ∃ m' ws, initSchedule Ex.startSt Ex.q10 [] = .ok (m', ws) ∧
-      ws = [.mkNode 1, .mkNode 2, .saveBlob] ∧
-      AgreeWhere m'.cell m'.store ∧ ¬ AgreeWhat m'.cell m'.store := by
-  refine ⟨by decide +kernel, by decide +kernel,
-          (getOk (initSchedule Ex.startSt Ex.q10 [])).1, (getOk (initSchedule Ex.startSt Ex.q10 [])).2,
-          eq_ok_pair (by decide +kernel), by decide +kernel,
-          agreeWhere_of_B (by decide +kernel) (by decide +kernel), ?_⟩
-  rw [← agreeWhatB_iff]
-  decide +kernel
+/-- The put branch of `restore_placement` now republishes (fix d79bbbc; former finding F10, event
+    path): server 1 bounced, the lease is re-evaluated (160 instead of 100) and the record follows. -/
+example : isOkB (restorePlacement Ex.at60 Ex.bouncedStore 1 false) = true ∧
+    (getOk (restorePlacement Ex.at60 Ex.bouncedStore 1 false)).2.1 = [.putRec 1 10 none none (some 160)] ∧
+    agreeWhatB (getOk (restorePlacement Ex.at60 Ex.bouncedStore 1 false)).1
+      (Ex.bouncedStore.applyAll 60 (getOk (restorePlacement Ex.at60 Ex.bouncedStore 1 false)).2.1) = true :=
+  ⟨by decide +kernel, by decide +kernel, by decide +kernel⟩
 
 end TmVerif.Master
